@@ -51,9 +51,22 @@ struct OpCtl
     std::string bad;         // first validation failure (empty = none)
     long set_shift_calls = 0;
     long count_at_last_set_shift = 0;
+    // shift bookkeeping: applications performed while the operator is NOT at the shift installed first (at construction)
+    // are post-processing (the complex-shift solver's probe), not part of the counted iteration
+    double home_sig = 0, cur_sig = 0;
+    bool have_home = false;
+    long away_count = 0;     // applications at a foreign shift since reset()
     std::function<void(long)> between;  // called before each application (schedule perturbation)
 
-    void reset() { count = 0; bad.clear(); }
+    void reset() { count = 0; away_count = 0; bad.clear(); }
+    long iteration_count() const { return count - away_count; }
+    void note_shift(double sig)
+    {
+        set_shift_calls++;
+        count_at_last_set_shift = count;
+        if (!have_home) { home_sig = sig; have_home = true; }
+        cur_sig = sig;
+    }
     void arm(long k, long token) { fault_at = k; fault_token = token; }
     void disarm() { fault_at = -1; }
 
@@ -62,6 +75,7 @@ struct OpCtl
     {
         ++count;
         ++total;
+        if (have_home && cur_sig != home_sig) ++away_count;
         if (validate && bad.empty())
         {
             if (!x || !y) bad = "null pointer";
@@ -125,8 +139,10 @@ struct Wrap : public Op
     template <class... A>
     void set_shift(A&&... a)
     {
-        ctl->set_shift_calls++;
-        ctl->count_at_last_set_shift = ctl->count;
+        double sig = 0.0, w = 1.0;
+        const double vals[] = {(double) a...};
+        for (double v : vals) { sig += w * v; w *= 1.618033988749895; }
+        ctl->note_shift(sig);
         Op::set_shift(std::forward<A>(a)...);
     }
 };
